@@ -77,9 +77,12 @@ def snapshot : List (String × Layout) := [
   ("SumLinearOperator", ⟨0, true, [], [], true, [], []⟩),
   ("ConstantDiagLinearOperator", ⟨1, false, ["diag_values", "diag_shape"], [("diag_shape", none)], false, [], []⟩),
   ("PermutationLinearOperator", ⟨2, false, ["perm", "inv_perm", "validate_args"], [("validate_args", some (.bool true))], false, [], []⟩),
-  ("ZeroLinearOperator", ⟨0, true, [], [], false, [("dtype", .none), ("device", .none)], []⟩)]
+  ("ZeroLinearOperator", ⟨0, true, [], [], false, [("dtype", .none), ("device", .none)], []⟩),
+  ("KernelLinearOperator", ⟨2, false, ["x1", "x2", "covar_func", "num_outputs_per_input", "num_nonbatch_dimensions"],
+    [("covar_func", none), ("num_outputs_per_input", some (.ints [1, 1])), ("num_nonbatch_dimensions", some .none)],
+    true, [], []⟩)]
 
-def genCfg (d : DT) : Cfg := ⟨fun c => (snapshot.find? (·.1 = c)).map (·.2), d⟩
+def genCfg (d : DT) : Cfg := ⟨fun c => (snapshot.find? (·.1 = c)).map (·.2), d, false⟩
 
 open LinOp.Generated.C14 in
 /-- Every snapshot layout is today's generated layout, or differs from it only in that the formerly hidden
@@ -127,7 +130,7 @@ theorem previous_code_chol_default_roundtrip (rest : List Leaf) :
 
 /-! ### Today's constructors (layout table generated from the current source) -/
 
-def todayCfg (d : DT) : Cfg := ⟨LinOp.Generated.C14.layoutOf, d⟩
+def todayCfg (d : DT) : Cfg := ⟨LinOp.Generated.C14.layoutOf, d, LinOp.Generated.C14.baseToGuardsKind⟩
 
 /-- today's stored form of `CholLinearOperator(TriangularLinearOperator(R, upper=up), upper=up)` -/
 def exCholToday (up : Bool) : Op := .node "CholLinearOperator" [exTri up] [] [] [("upper", .bool up)] []
@@ -149,7 +152,7 @@ theorem rebuild_flatten_upper_today (rest : List Leaf) :
 `super().__init__(base, extra_op=<Interpolated>, scale=<tensor>)` -/
 def exUserWrap : Op :=
   .node "UserWrapLinearOperator" [.node "DenseLinearOperator" [tL 7 .f32] [] [] [] []]
-    ["extra_op", "scale"] [exInterp, tL 8 .f32] [] []
+    ["extra_op", "scale"] [exInterp, tL 8 .f32] [("index", .none), ("mask", .none)] []
 
 /-- **Operator-valued keyword arguments** are rebuilt from the *unflattened* children: the general theorems cover
 them (`dv : List Op` may hold operators of any depth); here instantiated for a keyword operator that flattens to
@@ -206,6 +209,54 @@ theorem type_casts_exactly_float (t : DT) (g : Bool) (l : Leaf) :
 theorem index_tensors_not_cast (t : DT) (l : Leaf) (h : l.dt.isFloat = false) :
     (convLeaf (.to t) true l) = l ∧ (convLeaf (.cloneTo t) true l).dt = l.dt ∧ (convLeaf (.type t) true l).dt = l.dt := by
   unfold convLeaf; simp [h]
+
+/-- **Keyword tensors obey the same casting law as positional tensors**: for every class, mode, and lists of
+positional / keyword tensors of any length, a conversion passes `convLeaf` of each tensor to the constructor —
+so with `type_casts_exactly_float` an integer index tensor or boolean mask held as a *keyword* argument (Kernel
+`**params`, user subclasses) keeps its dtype under `type` / `double` / `float` / `half`, exactly like a positional one. -/
+theorem conversion_casts_kwargs_like_args (cfg : Cfg) (m : Mode) (cls : String) (la ld : List Leaf)
+    (dn : List String) (nkw hid : KV)
+    (hc : (decide (cls = "TransposePermutationLinearOperator") && isTypeMode m) = false) :
+    conv cfg m (.node cls (la.map Op.leaf) dn (ld.map Op.leaf) nkw hid) =
+      construct cfg cls
+        (la.map fun l => Op.leaf (convLeaf (nodeMode m cls) (floatOnlyTo cls || cfg.baseToGuard) l))
+        (kwOf dn (ld.map fun l => Op.leaf (convLeaf (nodeMode m cls) (floatOnlyTo cls || cfg.baseToGuard) l))
+          (convNkw m cls nkw)) := by
+  rw [conv_node, if_neg (by simp [hc]), convL_leaves, convL_leaves]
+
+/-- `KernelLinearOperator(x1, x2, covar_func, active_dims=<int64>, keep=<bool>, lengthscale=<float>)` as stored -/
+def exKernelKw : Op :=
+  .node "KernelLinearOperator" [tL 0 .f32, tL 1 .f32] ["active_dims", "keep", "lengthscale"]
+    [.leaf ⟨.i64, [2], 2, false, false⟩, .leaf ⟨.bool, [2], 3, false, false⟩, tL 4 .f32]
+    [("covar_func", .str "fn"), ("num_nonbatch_dimensions", .str "dict"), ("num_outputs_per_input", .ints [1, 1])] []
+
+/-- `type` (double / float / half) never casts integer / boolean **keyword** tensors — also one level down
+(`Sum(Kernel, …)` is converted through `clone().to(dtype)` of the child, which needs the base `to` to guard). -/
+theorem type_keeps_index_kwargs_example :
+    normal (genCfg .f32) exKernelKw = true ∧
+    (conv (genCfg .f32) (.type .f64) exKernelKw).map (fun o => (rep o).map (·.dt)) = some [.f64, .f64, .i64, .bool, .f64] ∧
+    (conv (genCfg .f32) (.type .f16) exKernelKw).map (fun o => (rep o).map (·.dt)) = some [.f16, .f16, .i64, .bool, .f16] := by
+  decide +kernel
+
+/-- **D32 (counterexample)**: the base-class `to(dtype)` casts integer / boolean keyword tensors of a class without
+a `to` override (today's `LinearOperator.to`, `baseToGuard = false`), directly and — through `type` — below a parent. -/
+theorem to_casts_index_kwargs_counterexample :
+    (conv (genCfg .f32) (.to .f64) exKernelKw).map (fun o => (rep o).map (·.dt)) = some [.f64, .f64, .f64, .f64, .f64] ∧
+    (conv (genCfg .f32) (.type .f64) (.node "SumLinearOperator" [exKernelKw] [] [] [] [])).map
+      (fun o => (rep o).map (·.dt)) = some [.f64, .f64, .f64, .f64, .f64] := by
+  decide +kernel
+
+/-- **D32 (partial / proposed fix)**: once the base `to` tests the kind of each tensor (`baseToGuard = true`,
+notes/C14_fix_4.diff) integer / boolean tensors survive `to` and nested `type` for args and kwargs alike. -/
+theorem to_keeps_index_kwargs_when_base_guards :
+    let cfg : Cfg := { genCfg .f32 with baseToGuard := true }
+    (conv cfg (.to .f64) exKernelKw).map (fun o => (rep o).map (·.dt)) = some [.f64, .f64, .i64, .bool, .f64] ∧
+    (conv cfg (.type .f64) (.node "SumLinearOperator" [exKernelKw] [] [] [] [])).map
+      (fun o => (rep o).map (·.dt)) = some [.f64, .f64, .i64, .bool, .f64] ∧
+    (conv cfg (.to .f64)
+      (.node "PermutationLinearOperator" [.leaf ⟨.i64, [3], 0, false, false⟩, .leaf ⟨.i64, [3], 1, false, false⟩]
+        [] [] [("validate_args", .bool false)] [])).map (fun o => (rep o).map (·.dt)) = some [.i64, .i64] := by
+  decide +kernel
 
 /-- **D18 (counterexample)**: the base-class `to` casts *every* tensor argument, so an integer tensor held by a class
 without a `to` override (PermutationLinearOperator) becomes floating point. -/
